@@ -40,13 +40,14 @@ Proof.
   - exfalso. destruct (P1 k e Ep) as [(tk' & E' & _)|[[] _]]. congruence.
 Qed.
 
-Lemma ready_core s1 pe nodes l r : wf_net_b n = true -> QP n s1 -> PBe s1 ->
+(* everything the end state satisfies *)
+Lemma end_state_facts s1 pe nodes : QP n s1 -> PBe s1 ->
   let s := extract_all n pe nodes s1 in
-  nodes_ok_b s1 nodes = true -> sorted_keys_b s = true -> err s = false ->
-  tree_of (tfuel s) (children s) (seq 0 N) = Some (Node l r) ->
-  contractible_b n s (Node l r) = true /\ PB s.
+  nodes_ok_b s1 nodes = true -> err s = false ->
+  InvC n s /\ PA n s /\ PB s /\ PP n s /\ preproc_complete_b n s = true /\
+  (forall p l r, nget p (children s) = Some (l, r) -> filled3 s p l r).
 Proof.
-  intros Hwf [[I1 A1] Q1] P1 s Hnodes Hsorted He Ht.
+  intros [[I1 A1] Q1] P1 s Hnodes He.
   unfold nodes_ok_b in Hnodes. apply andb_true_iff in Hnodes. destruct Hnodes as [Hn1 Hn2].
   rewrite forallb_forall in Hn1, Hn2.
   destruct (extract_ok n HN Hout pe nodes s1 (conj I1 (conj A1 P1))) as ((I2&A2&P2)&M2&F2).
@@ -76,13 +77,22 @@ Proof.
   assert (Q3 : PP n s) by (apply (PP_prel n s2); [exact Q2|apply crel_prel, H3]).
   assert (Hpp : preproc_complete_b n s = true).
   { apply PP_complete; [exact Q3|]. intros k Hk. apply (C3 He). apply in_seq. lia. }
-  split; [|exact P3].
   assert (Ec : children s = children s1).
   { destruct (crel_srel n _ _ H3) as (_&E1&_). destruct M2 as (_&E2&_). congruence. }
-  apply (ready_state n HN s I3 A3 Hsorted); try assumption.
+  split; [exact I3|]. split; [exact A3|]. split; [exact P3|]. split; [exact Q3|]. split; [exact Hpp|].
   intros p l' r' E. rewrite Ec in E. specialize (Hn2 _ (nget_In _ _ _ E)). cbn [fst] in Hn2.
   apply existsb_exists in Hn2. destruct Hn2 as (e & Hin & Heq). apply node_eqb_eq in Heq.
   rewrite <- Heq. apply (mrl_filled n s2 s _ _ _ M3). apply (F2 He2 e l' r' Hin). rewrite Heq. exact E.
+Qed.
+Lemma ready_core s1 pe nodes l r : wf_net_b n = true -> QP n s1 -> PBe s1 ->
+  let s := extract_all n pe nodes s1 in
+  nodes_ok_b s1 nodes = true -> sorted_keys_b s = true -> err s = false ->
+  tree_of (tfuel s) (children s) (seq 0 N) = Some (Node l r) ->
+  contractible_b n s (Node l r) = true /\ PB s.
+Proof.
+  intros Hwf HQ P1 s Hnodes Hsorted He Ht.
+  destruct (end_state_facts s1 pe nodes HQ P1 Hnodes He) as (I3 & A3 & P3 & _ & Hpp & Hf). fold s in I3, A3, P3, Hpp, Hf.
+  split; [|exact P3]. apply (ready_state n HN s I3 A3 Hsorted Hf); assumption.
 Qed.
 
 Theorem checked_history_ready2 tr pe nodes l r :
